@@ -213,3 +213,23 @@ def random_specs(seed, n, nrules=(2, 5), alphabet="abcd"):
             rules.append(tok("TZ", lit("z")))
         out.append(spec("rndl-%d-%d" % (seed, len(out)), rules))
     return out
+
+
+def range_triple_specs(rng, n, universe="abcdefgh"):
+    """rule sets whose alphabet splitting is non-trivial: three (or four) ranges over a small universe with
+    partial overlaps, nesting, shared ends, plus a literal starting inside an overlap"""
+    out = []
+    U = len(universe)
+    ranges = [(b, e) for b in range(U) for e in range(b, U)]
+    for i in range(n):
+        k = 3 if rng.random() < 0.7 else 4
+        rs = [rng.choice(ranges) for _ in range(k)]
+        rules = []
+        for j, (b, e) in enumerate(rs):
+            rules.append(tok("R%d" % j, cat(plus(cls([[ord(universe[b]), ord(universe[e])]])), lit(str(j)))))
+        # a literal whose first character lies inside the first two ranges' intersection when there is one
+        lo, hi = max(rs[0][0], rs[1][0]), min(rs[0][1], rs[1][1])
+        c = universe[rng.randint(lo, hi)] if lo <= hi else rng.choice(universe)
+        rules.append(tok("KW", lit(c + rng.choice(universe))))
+        out.append(spec("rng3-%d" % i, rules))
+    return out
